@@ -1,5 +1,6 @@
 (* Executable glue for C11: runs the scanner model on a harness case.
    input  = L [content; L [op ...]]   with op = L [I code; I arg], code 0 read | 1 unread | 2 unread-many arg | 3 peek | 4 reset
+                                      | 5 arg: arg reads in a row, observed once at the end (long contents)
    output = L [obs ...]               with obs = L [ret; line; col; peek; peek_line; peek_column] after each operation (ret = -2 if none) *)
 From Coq Require Import List ZArith Bool.
 Import ListNotations.
@@ -22,5 +23,25 @@ Fixpoint run_ops (s : scanner) (ops : list op) : list sx :=
       observe s' ret :: run_ops s' r
   end.
 
+(* n reads in a row: the value of the last one *)
+Fixpoint reads (n : nat) (ret : Z) (s : scanner) : Z * scanner :=
+  match n with O => (ret, s) | S k => let '(r, s') := read s in reads k r s' end.
+
+Fixpoint run_sx (s : scanner) (ops : list sx) : list sx :=
+  match ops with
+  | [] => []
+  | o :: r =>
+      let '(ret, s') :=
+        if gz (nth_sx 0 o) =? 5 then reads (gnat (nth_sx 1 o)) (-2) s
+        else match dec_op o with ORead => read s | o' => (-2, step s o') end in
+      observe s' ret :: run_sx s' r
+  end.
+
+Lemma run_sx_is_run_ops : forall ops s, Forall (fun o => (gz (nth_sx 0 o) =? 5) = false) ops -> run_sx s ops = run_ops s (map dec_op ops).
+Proof.
+  induction ops as [|o r IH]; intros s H; [reflexivity|]. inversion H as [|? ? H1 H2]; subst. cbn [run_sx run_ops map]. rewrite H1.
+  destruct (dec_op o); (destruct (read s) as [ret s'] || idtac); cbn; f_equal; apply IH; assumption.
+Qed.
+
 Definition model_C11 (input : sx) : sx :=
-  L (run_ops (init (gstr (nth_sx 0 input))) (map dec_op (gl (nth_sx 1 input)))).
+  L (run_sx (init (gstr (nth_sx 0 input))) (gl (nth_sx 1 input))).
